@@ -81,6 +81,7 @@ fn main() {
         "factory_pool" => worker::factory_pool(&args),
         "routing" => routing::run(&args),
         "route_kp" => routing::route_kp(&args),
+        "dead_window" => routing::dead_window(&args),
         "factory_drain" => worker::factory_drain(&args),
         "outport" => outport::run(&args),
         "pg" => pg::run(&args),
